@@ -113,7 +113,8 @@ def make_case(R):
         doc = deep_late(R)
         return {"kind": "evaluation-error", "query": R.choice(["$..*", "$..[*]", "$..a", "$..[?@]", "$.*..*"]), "doc_value": doc, "doc_bytes": json.dumps(doc).encode(), "expect": "fail"}
     if r < 0.92:
-        raw = R.choice([b"{", b"[1, 2", b"[1] x", b"", b"{'a': 1}", b"[1,]", b"nul", b"\"abc", b"[1] [2]", b"{\"a\" 1}"])
+        raw = R.choice([b"{", b"[1, 2", b"[1] x", b"", b"{'a': 1}", b"[1,]", b"nul", b"\"abc", b"[1] [2]", b"{\"a\" 1}",
+                        b"[1, 2\n", b"\n", b"{\"a\":\n", b"[1,\r\n", b"[\n\n", b"{\"a\": 1}\n]\n", b"\r\n\r\n", b"[1, 2\n\n\n"])
         return {"kind": "invalid-json", "query": "$", "doc_value": None, "doc_bytes": raw, "expect": "fail"}
     raw = R.choice([b"\"\xff\"", b"[\"\xc3\x28\"]", b"\xff\xfe[", b"{\"a\": \"\xf0\x28\x8c\x28\"}", b"\x80"])
     return {"kind": "undecodable", "query": "$", "doc_value": None, "doc_bytes": raw, "expect": "fail", "file_only": True}
